@@ -783,7 +783,22 @@ func (fv *FV) indexTerm(st *State, a, i Term) Term {
 		if i.Sort != sInt {
 			fv.sfail("slice index must be an int")
 		}
-		return Term{S: sel(sel(fv.heapGet(st, key), "(sbase "+a.S+")"), app("+", "(soff "+a.S+")", i.S)), Sort: fv.sortOf(et), T: et}
+		ix := i.S
+		if strings.ContainsAny(ix, " (") && !containsQ(ix) && !i.Lit {
+			// a compound ground index gets a name: E-matching is syntactic, and `(+ off (- len 1))` is flattened by
+			// the solvers into a ternary sum that no pattern `(+ off k)` matches
+			if fv.ixNames == nil {
+				fv.ixNames = map[string]string{}
+			}
+			nm, ok := fv.ixNames[ix]
+			if !ok {
+				nm = fv.fresh("ix", sInt)
+				fv.ixNames[ix] = nm
+				fv.axioms = append(fv.axioms, and(app("<=", nm, ix), app(">=", nm, ix))) // two inequalities: an equation would be substituted away by the solver's preprocessing
+			}
+			ix = nm
+		}
+		return Term{S: sel(sel(fv.heapGet(st, key), "(sbase "+a.S+")"), app("+", "(soff "+a.S+")", ix)), Sort: fv.sortOf(et), T: et}
 	case a.Sort == sStr:
 		return Term{S: fmt.Sprintf("(strdata (strbase %s) (+ (stroff %s) %s))", a.S, a.S, i.S), Sort: sBV8, T: types.Typ[types.Uint8]}
 	case strings.HasPrefix(a.Sort, "(Array "):
